@@ -162,7 +162,31 @@ impl C09 {
         for (_, d) in &roots {
             root_texts.push(r.render_root(d));
         }
-        let rendered = r.finish(root_texts);
+        let mut rendered = r.finish(root_texts);
+        let mut roots = roots;
+        // twins: two enums (or two object types) with the same shape and member names but different contents, each used
+        // by its own parser -- the layout below gives them the *same* name in different files
+        let twins = match s.below(6) {
+            0 | 1 => {
+                rendered.decls.push("enum TwinEa { Red = \"red-a\", Blue = \"blue-a\" }".into());
+                rendered.decls.push("enum TwinEb { Red = \"red-b\", Blue = \"blue-b\" }".into());
+                rendered.roots.push("TwinEa.Red".into());
+                rendered.roots.push("{ c: TwinEb.Red; d?: TwinEb.Blue }".into());
+                roots.push(("PTa".into(), D::StrLit("red-a".into())));
+                roots.push(("PTb".into(), D::obj(vec![("c", D::StrLit("red-b".into()), false), ("d", D::StrLit("blue-b".into()), true)])));
+                Some(("TwinEa", "TwinEb"))
+            }
+            2 => {
+                rendered.decls.push("type TwinTa = { x: string };".into());
+                rendered.decls.push("type TwinTb = { x: number };".into());
+                rendered.roots.push("TwinTa".into());
+                rendered.roots.push("TwinTb[]".into());
+                roots.push(("PTa".into(), D::obj(vec![("x", D::Str, false)])));
+                roots.push(("PTb".into(), D::Array(Box::new(D::obj(vec![("x", D::Num, false)])))));
+                Some(("TwinTa", "TwinTb"))
+            }
+            _ => None,
+        };
         let build = {
             let mut out = String::from("export const Parsers = parse.buildParsers<{\n");
             for ((name, _), t) in roots.iter().zip(rendered.roots.iter()) {
@@ -237,39 +261,77 @@ impl C09 {
                 needed[j] = true;
             }
         }
+        // name collision: one declaration takes, inside its own file, the name of a declaration of the same kind that
+        // lives in another file (two different `enum Color`, `type T`, `interface I` in one project); importers keep
+        // their local names (`import { Color as Color2 }`, `ns.Color`, ...)
+        let mut local_name: Vec<String> = decls.iter().map(|d| d.name.clone()).collect();
+        let mut collide_renames: Vec<Vec<(String, String)>> = vec![vec![]; nfiles];
+        if decls.len() >= 2 && (twins.is_some() || s.chance(1, 3)) {
+            // prefer enums (their members get emitted names of their own), else any kind
+            let enums: Vec<usize> = (0..decls.len()).filter(|&i| decls[i].kind == "enum").collect();
+            let mut i = if enums.len() >= 2 && s.chance(2, 3) { enums[s.below(enums.len())] } else { s.below(decls.len()) };
+            if let Some((_, tb)) = twins {
+                if let Some(k) = decls.iter().position(|d| d.name == tb) {
+                    i = k;
+                }
+            }
+            let f = file_of[i];
+            let cands: Vec<usize> = (0..decls.len())
+                .filter(|&e| {
+                    let en = &decls[e].name;
+                    e != i
+                        && file_of[e] != f
+                        && decls[e].kind == decls[i].kind
+                        && !decls.iter().enumerate().any(|(k, x)| file_of[k] == f && (x.name == *en || x.refs.contains(en)))
+                        && !(f == 0 && build_refs.contains(en))
+                })
+                .collect();
+            if !cands.is_empty() {
+                let mut e = cands[s.below(cands.len())];
+                if let Some((ta, _)) = twins {
+                    if let Some(k) = cands.iter().find(|&&c| decls[c].name == ta) {
+                        e = *k;
+                    }
+                }
+                local_name[i] = decls[e].name.clone();
+                collide_renames[f].push((decls[i].name.clone(), local_name[i].clone()));
+                styles.push(format!("name_collision_{}", decls[i].kind));
+            }
+        }
         for (j, d) in decls.iter().enumerate() {
             if !needed[j] {
                 continue;
             }
             let f = file_of[j];
             let form = s.below(5);
+            let ln = local_name[j].clone();
             match form {
                 0 | 1 => {
                     // inline export
                     decl_texts[j] = export_inline(&decl_texts[j], d.kind);
-                    exported_as.insert(d.name.clone(), (d.name.clone(), false));
+                    exported_as.insert(d.name.clone(), (ln.clone(), false));
                     styles.push("export_inline".into());
                 }
                 2 => {
-                    export_lines[f].push(format!("export {{ {} }};", d.name));
-                    exported_as.insert(d.name.clone(), (d.name.clone(), false));
+                    export_lines[f].push(format!("export {{ {} }};", ln));
+                    exported_as.insert(d.name.clone(), (ln.clone(), false));
                     styles.push("export_list".into());
                 }
                 3 => {
                     let ext = format!("{}_x", d.name);
-                    export_lines[f].push(format!("export {{ {} as {} }};", d.name, ext));
+                    export_lines[f].push(format!("export {{ {} as {} }};", ln, ext));
                     exported_as.insert(d.name.clone(), (ext, false));
                     styles.push("export_renamed".into());
                 }
                 _ => {
                     if !default_taken[f] && d.kind != "enum" && d.kind != "const" {
                         default_taken[f] = true;
-                        export_lines[f].push(format!("export default {};", d.name));
+                        export_lines[f].push(format!("export default {};", ln));
                         exported_as.insert(d.name.clone(), ("default".into(), true));
                         styles.push("export_default".into());
                     } else {
                         decl_texts[j] = export_inline(&decl_texts[j], d.kind);
-                        exported_as.insert(d.name.clone(), (d.name.clone(), false));
+                        exported_as.insert(d.name.clone(), (ln.clone(), false));
                         styles.push("export_inline".into());
                     }
                 }
@@ -362,7 +424,17 @@ impl C09 {
                         // re-export chain through a hop file
                         hop += 1;
                         let hop_name = format!("hop{}", hop);
-                        let (line, imported) = match s.below(3) {
+                        let (line, imported) = match s.below(4) {
+                            3 => {
+                                // diamond: the barrel and the module it forwards to both re-export a common module
+                                // first; the wanted name is only reachable through the *later* export-star line
+                                let common = format!("common{}", hop);
+                                let inner = format!("inner{}", hop);
+                                extra_files.push((format!("{}.ts", common), format!("export type Unrelated{} = string;\n", hop)));
+                                extra_files.push((format!("{}.ts", inner), format!("export * from \"./{}\";\nexport * from \"{}\";\n", common, gspec)));
+                                styles.push("export_star_diamond".into());
+                                (format!("export * from \"./{}\";\nexport * from \"./{}\";", common, inner), ext.clone())
+                            }
                             0 => (format!("export * from \"{}\";", gspec), ext.clone()),
                             1 => (format!("export {{ {} }} from \"{}\";", ext, gspec), ext.clone()),
                             _ => (format!("export {{ {} as {}_h }} from \"{}\";", ext, ext, gspec), format!("{}_h", ext)),
@@ -409,11 +481,17 @@ impl C09 {
                     for (from, to) in &replacements {
                         t = replace_ident(&t, from, to);
                     }
+                    for (from, to) in &collide_renames[f] {
+                        t = replace_ident(&t, from, to);
+                    }
                     file_texts[f].push(t);
                 }
             }
             if f == 0 {
                 for (from, to) in &replacements {
+                    build_text = replace_ident(&build_text, from, to);
+                }
+                for (from, to) in &collide_renames[0] {
                     build_text = replace_ident(&build_text, from, to);
                 }
             }
@@ -424,7 +502,7 @@ impl C09 {
             if d.kind == "type" && s.chance(1, 5) {
                 let f = (file_of[i] + 1 + s.below(nfiles - 1)) % nfiles;
                 // only where the name is not in use in that file
-                let used_there = decls.iter().enumerate().any(|(k, x)| file_of[k] == f && (x.name == d.name || x.refs.contains(&d.name))) || (f == 0 && build_refs.contains(&d.name));
+                let used_there = decls.iter().enumerate().any(|(k, x)| file_of[k] == f && (x.name == d.name || local_name[k] == d.name || x.refs.contains(&d.name))) || (f == 0 && build_refs.contains(&d.name));
                 if !used_there {
                     file_texts[f].push(format!("{}type {} = {{ decoy: true }};", if s.chance(1, 2) { "export " } else { "" }, d.name));
                     decoy_count += 1;
@@ -696,7 +774,33 @@ fn ns_stress(s: &mut Src) -> Vec<(String, String)> {
     if s.chance(1, 2) {
         m.push_str("export * from \"./other\";\n");
     }
-    let other = "export const o1 = 1;\nexport const o2 = /x/;\nexport type OT = string;\n".to_string();
+    let mut other = "export const o1 = 1;\nexport const o2 = /x/;\nexport type OT = string;\n".to_string();
+    // re-exported names (a separate symbol table in the compiler): several of them cannot be converted, so the
+    // diagnostic that is reported first depends on the order in which that table is walked
+    let n2 = s.range(0, 10);
+    let mut re: Vec<String> = vec![];
+    for i in 0..n2 {
+        let bad = s.chance(1, 2);
+        other.push_str(&format!(
+            "export const r{} = {};\n",
+            i,
+            if bad { *s.pick(&["loadLimits()", "/re/", "Symbol()", "new Date()", "class {}"]) } else { *s.pick(&["1", "\"a\"", "{ a: 1 } as const"]) }
+        ));
+        match s.below(4) {
+            0 => re.push(format!("r{}", i)),
+            1 => re.push(format!("r{} as q{}", i, i)),
+            2 => {
+                m.push_str(&format!("import {{ r{} }} from \"./other\";\nexport {{ r{} }};\n", i, i));
+            }
+            _ => {}
+        }
+    }
+    if !re.is_empty() {
+        m.push_str(&format!("export {{ {} }} from \"./other\";\n", re.join(", ")));
+    }
+    if s.chance(1, 4) {
+        m.push_str("export * as sub from \"./other\";\n");
+    }
     let uses = match s.below(4) {
         0 => "typeof ns".to_string(),
         1 => "typeof ns.v0".to_string(),
@@ -713,8 +817,8 @@ impl Check for C10 {
     }
     fn cases(&self, tier: Tier) -> u32 {
         match tier {
-            Tier::Quick => 600,
-            Tier::Thorough => 20_000,
+            Tier::Quick => 1500,
+            Tier::Thorough => 40_000,
         }
     }
     fn stream_len(&self) -> usize {
